@@ -8,7 +8,7 @@ Extraction "C19_model.ml" wire_anchor
   fwd_prod rev_prod lay_stride lay_strides lay_required lay_map
   strided_ctor strided_default strided_of_layout layout_of_strided strided_stride strided_required strided_map
   tr_extents tr_required tr_map tr_stride
-  mds_offset mds_get mds_size mds_empty mda_container_size sub_extents sub_extents_p sub_first sub_last
+  mds_offset mds_get mds_size mds_empty mda_container_size mda_strided_container_size sub_extents sub_extents_p sub_first sub_last
   mk_span sp_ctor sp_first_s sp_last_s sp_first_d sp_last_d sp_sub_s sp_sub_d sp_index sp_front sp_back sp_size_bytes sp_as_bytes sp_elems all_indices
   product row_major col_major stride_left stride_right dot span_max stride_required
   extents_all extents_dyn keep_full sub_shape sub_pattern first_ last_ sub_range.
